@@ -61,6 +61,12 @@ func genC17Arg(t *rapid.T, root interface{}) c17Arg {
 	a := c17Arg{Base: []string{"var", "dot", "var", "dot", "undefined"}[rapid.IntRange(0, 4).Draw(t, "base")]}
 	var steps []zStep
 	for _, s := range genZPath(t, root, 4, 6) {
+		if s.Kind == "method" && rapid.IntRange(0, 1).Draw(t, "methodNamedNotCalled") == 0 {
+			// a chain that names a method (of a defined or an unnamed struct type) without calling it: the method
+			// is what it resolves to, and that is something
+			steps = append(steps, zStep{Kind: "methodval", Name: s.Name, Spell: s.Spell})
+			break
+		}
 		if s.Kind == "method" || s.Kind == "slice" {
 			break // documented argument kinds: identifier, field, index, chain
 		}
@@ -85,7 +91,7 @@ func (a c17Arg) expr() string {
 }
 
 func genC17(t *rapid.T) c17Case {
-	c := c17Case{Variant: rapid.IntRange(0, 5).Draw(t, "variant")}
+	c := c17Case{Variant: rapid.IntRange(0, 7).Draw(t, "variant")}
 	root := zooRoot(c.Variant)
 	c.Form = []string{"direct", "direct", "prefix", "piped", "lookup", "piped-slot", "unhashable"}[rapid.IntRange(0, 6).Draw(t, "form")]
 	n := 1
@@ -228,6 +234,10 @@ func judgeC17(c c17Case) (v core.Verdict) {
 	s, _ := jetrun.NewSet(map[string]string{"/t.jet": tpl})
 	vars := jet.VarMap{}
 	vars.Set("root", root)
+	vars.Set("nokeys", map[string]int{})
+	for k, v := range zIfaceKeys {
+		vars.Set(k, v)
+	}
 	vars.Set("unhashableKey", []string{"a"})
 	for i := -2; i <= 80; i++ {
 		name := fmt.Sprintf("idx%d", i)
@@ -255,7 +265,7 @@ func judgeC17(c c17Case) (v core.Verdict) {
 
 func TestC17(t *testing.T) {
 	core.Run(t, "C17",
-		"isset over 1-4 access paths (identifier, field, index and chain expressions; valid or invalid at any depth; nil pointers, nil maps, nil and typed-nil interfaces, absent keys, zero numbers, empty strings, false; literal and variable indexes, some undefined; undefined root) into 6 zoo variants, written isset(a, b) / isset: a, b / v | isset, plus two-value look-ups (v, ok := m[k]; v, ok = m[k]; with _ for v; as the header of an if) on maps with present, absent and present-but-nil entries; oracle = independent existence evaluator; non-trivial = exactly one failing argument, or a zero-but-present value, or a nil pointer",
+		"isset over 1-4 access paths (identifier, field, index and chain expressions; valid or invalid at any depth; nil pointers, nil maps, nil and typed-nil interfaces, absent keys, zero numbers, empty strings, false; literal and variable indexes, some undefined; undefined root) into 8 zoo variants, methods named without a call, written isset(a, b) / isset: a, b / v | isset, plus two-value look-ups (v, ok := m[k]; v, ok = m[k]; with _ for v; as the header of an if) on maps with present, absent and present-but-nil entries; oracle = independent existence evaluator; non-trivial = exactly one failing argument, or a zero-but-present value, or a nil pointer",
 		genC17, judgeC17)
 }
 
